@@ -206,7 +206,7 @@ def mk_slice_iter(I, s, by_ref=True):
     return IterV('slice', base=s.base, start=st, i=0, n=n)
 
 
-@model(r'^core::slice::<impl \[.*\]>::(iter|iter_mut)$|^<&(?:mut )?(?:Vec<.*>|\[.*\]) as IntoIterator>::into_iter$|^Vec::<.*>::(iter|iter_mut)$')
+@model(r'^(?:core|std)::slice::<impl \[.*\]>::(iter|iter_mut)$|^<&(?:mut )?(?:Vec<.*>|\[.*\]) as IntoIterator>::into_iter$|^Vec::<.*>::(iter|iter_mut)$')
 def m_slice_iter(I, fr, callee, m, args):
     return mk_slice_iter(I, args[0])
 
@@ -642,7 +642,7 @@ def collect_into(I, fr, target, xs):
     raise Unsupported("collect into " + target)
 
 
-@model(r'^core::slice::<impl \[.*\]>::(chunks|splitn|split)(?:::<.*>)?$|^core::str::<impl str>::(chars|split|splitn|bytes)(?:::<.*>)?$')
+@model(r'^(?:core|std)::slice::<impl \[.*\]>::(chunks|splitn|split)(?:::<.*>)?$|^(?:core|std)::str::<impl str>::(chars|split|splitn|bytes)(?:::<.*>)?$')
 def m_slice_iters(I, fr, callee, m, args):
     op = m.group(1) or m.group(2)
     s = as_slice(I, args[0])
